@@ -177,6 +177,10 @@ func mutPattern(r *hx.Rand, h string) string {
 func patElem(r *hx.Rand, g *hx.Gen, w *world) string {
 	base := pickHost(r)
 	p := mutPattern(r, base)
+	if r.Chance(1, 8) {
+		p = mixCase(r, p)
+		g.Stat("pat.mixed-case")
+	}
 	port := "22"
 	switch r.Intn(10) {
 	case 0, 1:
@@ -208,6 +212,16 @@ func hostField(r *hx.Rand, g *hx.Gen, w *world) string {
 		el = append(el, "") // empty element is skipped
 	}
 	return strings.Join(el, ",")
+}
+
+func mixCase(r *hx.Rand, s string) string {
+	b := []byte(s)
+	for i := range b {
+		if b[i] >= 'a' && b[i] <= 'z' && r.Chance(1, 2) {
+			b[i] -= 32
+		}
+	}
+	return string(b)
 }
 
 func hmacSha1(salt, msg []byte) []byte {
@@ -479,6 +493,9 @@ func genQueries(r *hx.Rand, g *hx.Gen, w *world, t *idtab, n int) (string, strin
 			if r.Chance(1, 8) {
 				h = pickHost(r)
 			}
+			if r.Chance(1, 6) {
+				h = mixCase(r, h)
+			}
 			addr = fmtAddr(r, h, rec.port)
 			if r.Chance(1, 10) { // empty host name: the remote address decides
 				addr, remote = "", addr
@@ -674,6 +691,9 @@ func gen(g *hx.Gen) {
 						if pat == "" {
 							pat = h
 						}
+						if r.Chance(1, 4) { // mixed case in the pattern (host names are case-insensitive)
+							pat = mixCase(r, pat)
+						}
 						if p != "22" {
 							pat = "[" + pat + "]:" + p
 						}
@@ -689,6 +709,10 @@ func gen(g *hx.Gen) {
 			q := hp{hx.Pick(r, lower), pickPort()}
 			if len(used) > 0 && r.Chance(4, 5) {
 				q = hx.Pick(r, used)
+			}
+			if r.Chance(1, 3) {
+				q.h = mixCase(r, q.h)
+				g.Stat("skf.upper-case-query")
 			}
 			file := []byte(sb.String())
 			t := newIDs()
@@ -920,7 +944,9 @@ func execKeygen(o hx.Op) string {
 		return v
 	}
 	goLines := strings.TrimPrefix(v, "keyerr:")
-	out, _ := osexec.Command("ssh-keygen", "-F", normHP(host, port), "-f", fn).Output()
+	// the ssh client lower-cases the host name before the lookup (ssh.c); ssh-keygen -F hashes its argument
+	// as given, so it is handed the lower-cased name; the callback gets the name as typed
+	out, _ := osexec.Command("ssh-keygen", "-F", normHP(strings.ToLower(host), port), "-f", fn).Output()
 	var kg []int
 	for _, l := range strings.Split(string(out), "\n") {
 		if i := strings.Index(l, " found: line "); strings.HasPrefix(l, "# Host ") && i > 0 {
